@@ -141,9 +141,30 @@ package envelope
 //@
 //@ // ---- C07: the envelope built for a payload model carries exactly that model (bindnode.Wrap + signing: trusted) --------
 //@ ghost func sealedModel(n datamodel.Node) any
+//@ // the envelope ToIPLD builds is one Inspect accepts: [signature, {h: the varsig header of the key's type, tag: the wrapped
+//@ // payload}], and the signature verifies under the public key of the signing key over the DAG-CBOR encoding of the signed part
+//@ pure func envelopeOf(n datamodel.Node, privKey crypto.PrivKey, token Tokener) bool =
+//@     inspectable(n) && isHdrKey(sigPayload(n), 0) && isTagKey(sigPayload(n), 1)
+//@  && tagOf(sigPayload(n)) == tagOfTok(token) && tokenPayloadOf(sigPayload(n)) == wrappedRepr(token)
+//@  && headerOf(sigPayload(n)) == varsigOf(keyTypeOf(pubOfPriv(privKey)))
+//@  && sigVerify(pubOfPriv(privKey), encodeWith(dagcbor.Encode, sigPayload(n)), nodeBytes(lookupIdx(n, 0)))
+//@  && encErr(dagcbor.Encode, sigPayload(n)) == nil && varsigErr(keyTypeOf(pubOfPriv(privKey))) == nil
+//@ // C07, envelope stage, composition of the two directions: what ToIPLD builds is accepted by the envelope stage of FromIPLD,
+//@ // provided (hypotheses made explicit; each is a property of a dependency or of the caller's choice of key):
+//@ // the typed builder accepts the wrapped payload and yields a model again (bindnode round trip), the payload's "iss" entry
+//@ // is a string that parses to a DID whose key is the public key of the signing key
+//@ lemma [C07] sealed_acceptable(n datamodel.Node, k crypto.PrivKey, tok Tokener, tag string, proto schema.TypedPrototype):
+//@     envelopeOf(n, k, tok) && tagOfTok(tok) == tag
+//@  && lookupStrErr(wrappedRepr(tok), "iss") == nil && asStringErr(lookupStr(wrappedRepr(tok), "iss")) == nil
+//@  && asgErr(reprOf(proto), wrappedRepr(tok)) == nil && unwrapOf(typedNode(reprOf(proto), wrappedRepr(tok))) != nil
+//@  && parseOK(nodeStr(lookupStr(wrappedRepr(tok), "iss"))) && pubKeyErr(parsedDID(nodeStr(lookupStr(wrappedRepr(tok), "iss")))) == nil
+//@  && pubKeyOf(parsedDID(nodeStr(lookupStr(wrappedRepr(tok), "iss")))) == pubOfPriv(k)
+//@  ==> envAcceptable(n, tag, proto)
 //@ func ToIPLD
-//@   trusted
-//@   requires privKey != nil && token != nil
-//@   ensures result1 == nil ==> result0 != nil && sealedModel(result0) == token
-//@   ensures result1 == nil ==> signings(privKey) == old(signings(privKey)) + 1
+//@   requires privKey != nil && token != nil && hasPrefix(tagOfTok(token), "ucan/")
+//@   use seq_len, seq_empty, seq_snoc, list_of, map_of, lookup_list, bytes_node, bytes_node_ok, string_node
+//@   assumes result1 == nil ==> sealedModel(result0) == token
+//@   ensures nonnil: result1 == nil ==> result0 != nil
+//@   ensures [C07] envelope: result1 == nil ==> envelopeOf(result0, privKey, token)
+//@   ensures [C08] once: result1 == nil ==> signings(privKey) == old(signings(privKey)) + 1
 //@   assigns signings(privKey)
